@@ -196,4 +196,29 @@ MonStep(m, b, o, typeAfter) ==
              ELSE IF m.run # "None" THEN o.label ELSE "None"
   IN <<[m1 EXCEPT !.run = run, !.pseq = o.seq, !.ended = HasEnded(o.ev) \/ m.deferred, !.deferred = FALSE,
                   !.maxStream = IF o.stream > @ THEN o.stream ELSE @], why>>
+
+\* ---------------------------------------------------------------- judging a recorded call
+\* e = [ts, op, b, out, post, obs] as recorded by the harness (see Trace_Transmission);
+\* slots/mon are 2-element sequences.  Returns [why, dr, mon]: verdict of the monitor on the
+\* observation, first difference to the design model, monitor state afterwards.
+NoB == [cls |-> "OTHER", id |-> 0, btf |-> 0, a |-> FALSE, cc |-> 0]
+
+JudgeEvent(slots, tok, mon, e) ==
+  LET i  == e.ts
+      j  == 3 - i
+      isBurst == e.op = "burst"
+      r  == IF isBurst THEN SlotStep(slots[i], tok, e.b) ELSE SlotEndAll(slots[i], tok)
+      m  == IF isBurst THEN MonStep(mon[i], e.b, e.out, e.post.slots[i].tx.type)
+            ELSE LET x == MonEvents(mon[i], e.out.ev, 1, NoB, Len(e.out.ev) + 5)
+                 IN <<[x[1] EXCEPT !.run = "None", !.deferred = HasEnded(e.out.ev) \/ @,
+                                   !.maxStream = IF e.out.stream > @ THEN e.out.stream ELSE @],
+                      IF e.out.outcome # "ok" THEN "NeverFails" ELSE x[2]>>
+      w  == IF m[2] # "ok" THEN m[2]
+            ELSE IF \E k \in 1..Len(e.obs) : e.obs[k] # e.out.ev THEN "ObserverIsolation"
+            ELSE IF e.post.slots[j] # slots[j] THEN "TimeslotsIndependent"
+            ELSE "ok"
+      d  == IF r.slot # e.post.slots[i] THEN "state"
+            ELSE IF r.tok # e.post.tok THEN "token"
+            ELSE IF r.out # e.out THEN "output" ELSE "ok"
+  IN [why |-> w, dr |-> d, mon |-> [mon EXCEPT ![i] = m[1]]]
 =============================================================================
